@@ -262,6 +262,7 @@ class TxnScenario:
                                 "src": {"partitions": 8}})
         world.server = cl
         self.cluster = cl
+        world.STEP_CAP = 100_000  # ordinary runs need a few thousand steps; see the "metadata storm" note in C16.py
         world.app_eager = p.get("baseline", "net") == "app"
         world.p_enabled = bool(p.get("p_enabled", self.mode == "c07"))
         kinds = list(p.get("faults", ()))
